@@ -115,6 +115,8 @@ struct Peer {
     invalidated: std::collections::BTreeSet<u64>,
     /// put for an invalidated image
     stale_put: Option<u64>,
+    /// images freed by an upper case delete of the handler
+    freed_on_request: u64,
 }
 
 impl Peer {
@@ -270,6 +272,12 @@ impl Peer {
                     self.placements.retain(|(i, _), _| *i != id);
                 } else {
                     self.placements.remove(&(id, placement));
+                }
+                // the upper case form also frees the image data once nothing refers to it: from
+                // then on the image has to be transmitted again before it can be placed
+                if what == "I" && !self.placements.keys().any(|(i, _)| *i == id) && self.images.remove(&id).is_some() {
+                    self.invalidated.insert(id);
+                    self.freed_on_request += 1;
                 }
             }
             "q" => {}
